@@ -28,6 +28,8 @@ type Binder struct {
 }
 
 type Clause struct {
+	Cond   *Clause // ghost updates: optional `when` condition
+	Target *Clause // ghost updates: the ghost variable (as an expression clause)
 	Kind   string // requires ensures invariant assigns decreases
 	Label  string
 	Props  []string
@@ -65,6 +67,9 @@ type Contract struct {
 	Props    []string
 	Flags    map[string]bool
 	Refines  []string
+	Includes []string
+	GEntry   []*Clause // ghost updates at entry: Label = ghost variable expression text
+	GReturn  []*Clause // ghost updates at return (Cond optional)
 	Parent   *Contract // callee contracts: the contract of the enclosing function
 	File     string
 	Line     int
@@ -78,6 +83,7 @@ type PureFunc struct {
 	Rec     bool          // declared `rec`: uninterpreted + unfolding axiom
 	Opaque  bool
 	Abstract bool         // uninterpreted spec function
+	Virtual  bool         // spec-level interface method: value given by `specmethod` definitions per dynamic type
 	RecvType string       // method definitions: receiver type text
 	Method  string
 	File    string
@@ -91,6 +97,7 @@ type Axiom struct {
 }
 
 type PkgContracts struct {
+	KindProps map[string][]string
 	Axioms    []*Axiom
 	GlobalInvs []*Contract
 	PkgPath   string
@@ -105,7 +112,7 @@ type PkgContracts struct {
 	clauseSeq int
 }
 
-var kwRe = regexp.MustCompile(`^(import|pure|rec|opaque|abstract|method|callee|closure|func|assume|interface|functype|captures|axiom|globalinv|requires|ensures|assigns|decreases|loop|invariant|lemma|props|ghost|let|flag|refines|var)\b`)
+var kwRe = regexp.MustCompile(`^(import|pure|rec|opaque|abstract|virtual|specmethod|method|callee|closure|ghost_entry|ghost_return|include|kindprops|func|assume|interface|functype|captures|axiom|globalinv|requires|ensures|assigns|decreases|loop|invariant|lemma|props|ghost|let|flag|refines|var)\b`)
 
 func parseContractFile(path, pkgPath string) (*PkgContracts, error) {
 	b, err := os.ReadFile(path)
@@ -116,8 +123,9 @@ func parseContractFile(path, pkgPath string) (*PkgContracts, error) {
 	lines := strings.Split(string(b), "\n")
 	// group logical lines
 	type ll struct {
-		text string
-		line int
+		text   string
+		line   int
+		indent int
 	}
 	var logical []ll
 	for i, l := range lines {
@@ -128,7 +136,9 @@ func parseContractFile(path, pkgPath string) (*PkgContracts, error) {
 		if !strings.HasPrefix(t, "//@") {
 			continue
 		}
-		body := strings.TrimSpace(strings.TrimPrefix(t, "//@"))
+		rawBody := strings.TrimPrefix(t, "//@")
+		body := strings.TrimSpace(rawBody)
+		indent := len(rawBody) - len(strings.TrimLeft(rawBody, " \t"))
 		if body == "" || strings.HasPrefix(body, "--") {
 			continue
 		}
@@ -140,7 +150,7 @@ func parseContractFile(path, pkgPath string) (*PkgContracts, error) {
 			continue
 		}
 		if kwRe.MatchString(body) || len(logical) == 0 {
-			logical = append(logical, ll{body, i + 1})
+			logical = append(logical, ll{body, i + 1, indent})
 		} else {
 			logical[len(logical)-1].text += " " + body
 		}
@@ -180,8 +190,10 @@ func parseContractFile(path, pkgPath string) (*PkgContracts, error) {
 			pc.Imports = append(pc.Imports, p)
 		case "props":
 			ps := splitList(rest)
-			if cur == nil {
+			if cur == nil || l.indent <= 1 {
+				// section level: default for the contracts that follow
 				defProps = ps
+				cur, curLoop = nil, nil
 			} else {
 				cur.Props = ps
 			}
@@ -216,6 +228,18 @@ func parseContractFile(path, pkgPath string) (*PkgContracts, error) {
 			pc.Synth += fmt.Sprintf("//line %s:%d\n%s { return %s }\n", path, l.line, head, rewriteSpec(body))
 			pc.Pures = append(pc.Pures, pf)
 			cur, curLoop = nil, nil
+		case "virtual":
+			// virtual func Name(recv I, params) T : a spec-only method of an interface value; concrete
+			// types define it with `specmethod (x T) Name(params) (r R) = expr` (in any package)
+			head := strings.TrimSpace(rest)
+			nm := regexp.MustCompile(`^func\s+([A-Za-z_][A-Za-z_0-9]*)`).FindStringSubmatch(head)
+			if nm == nil {
+				return nil, fmt.Errorf("%s:%d: bad virtual func", path, l.line)
+			}
+			pf := &PureFunc{PkgPath: pkgPath, File: path, Line: l.line, Name: nm[1], FnName: nm[1], Virtual: true}
+			pc.Synth += fmt.Sprintf("//line %s:%d\n%s { panic(0) }\n", path, l.line, head)
+			pc.Pures = append(pc.Pures, pf)
+			cur, curLoop = nil, nil
 		case "abstract":
 			// abstract func name(params) T   -- an uninterpreted spec function
 			head := strings.TrimSpace(rest)
@@ -227,7 +251,7 @@ func parseContractFile(path, pkgPath string) (*PkgContracts, error) {
 			pc.Synth += fmt.Sprintf("//line %s:%d\n%s { panic(0) }\n", path, l.line, head)
 			pc.Pures = append(pc.Pures, pf)
 			cur, curLoop = nil, nil
-		case "method":
+		case "method", "specmethod":
 			// method (e T) Name(params) (r R) = expr : value of a pure method for a concrete receiver type;
 			// the real method is verified to return exactly this and to assign nothing
 			eqi := indexTopLevel(rest, " = ")
@@ -242,15 +266,24 @@ func parseContractFile(path, pkgPath string) (*PkgContracts, error) {
 			if c.Recv == nil || len(c.Results) != 1 {
 				return nil, fmt.Errorf("%s:%d: method definition needs a receiver and one result", path, l.line)
 			}
-			c.Ensures = append(c.Ensures, &Clause{Kind: "ensures", Label: "def", Text: c.Results[0].Name + " == " + body, File: path, Line: l.line, Owner: c})
+			c.Ensures = append(c.Ensures, &Clause{Kind: "ensures", Label: "def", Text: "same(" + c.Results[0].Name + ", " + body + ")", File: path, Line: l.line, Owner: c})
 			c.Assigns = append(c.Assigns, &Clause{Kind: "assigns", Text: "nothing", File: path, Line: l.line, Owner: c})
-			pc.Contracts = append(pc.Contracts, c)
+			if strings.HasPrefix(c.Recv.Type, "*") {
+				c.Requires = append(c.Requires, &Clause{Kind: "requires", Text: c.Recv.Name + " != nil", File: path, Line: l.line, Owner: c})
+			}
+			if kw == "method" {
+				pc.Contracts = append(pc.Contracts, c)
+			}
 			fn := "zzm_" + sanitize(c.Recv.Type) + "_" + c.Name
 			pf := &PureFunc{PkgPath: pkgPath, File: path, Line: l.line, Name: fn, FnName: fn, RecvType: c.Recv.Type, Method: c.Name}
 			params := binderList(append([]Binder{*c.Recv}, c.Params...))
 			pc.Synth += fmt.Sprintf("//line %s:%d\nfunc %s(%s) %s { return %s }\n", path, l.line, fn, params, c.Results[0].Type, rewriteSpec(body))
 			pc.Pures = append(pc.Pures, pf)
-			cur, curLoop = c, nil
+			if kw == "method" {
+				cur, curLoop = c, nil
+			} else {
+				cur, curLoop = nil, nil
+			}
 		case "callee":
 			// callee f(params) (results): contract of a function-typed parameter of the current contract
 			if cur == nil {
@@ -325,6 +358,41 @@ func parseContractFile(path, pkgPath string) (*PkgContracts, error) {
 			}
 		case "refines":
 			cur.Refines = append(cur.Refines, splitList(rest)...)
+		case "include":
+			cur.Includes = append(cur.Includes, splitList(rest)...)
+		case "kindprops":
+			if pc.KindProps == nil {
+				pc.KindProps = map[string][]string{}
+			}
+			for _, item := range strings.Fields(rest) {
+				kv := strings.SplitN(item, "=", 2)
+				if len(kv) == 2 {
+					pc.KindProps[kv[0]] = append(pc.KindProps[kv[0]], strings.Split(kv[1], ",")...)
+				}
+			}
+		case "ghost_entry", "ghost_return":
+			// ghost_entry NAME = EXPR        ghost_return [when COND ::] NAME = EXPR
+			r := rest
+			var cond *Clause
+			if strings.HasPrefix(r, "when ") {
+				dc := indexTopLevel(r, "::")
+				if dc < 0 {
+					return nil, fmt.Errorf("%s:%d: ghost update: `when COND ::` expected", path, l.line)
+				}
+				cond = &Clause{Kind: "gcond", Text: strings.TrimSpace(r[5:dc]), File: path, Line: l.line, Owner: cur}
+				r = strings.TrimSpace(r[dc+2:])
+			}
+			eqi := indexTopLevel(r, " = ")
+			if eqi < 0 {
+				return nil, fmt.Errorf("%s:%d: ghost update needs NAME = EXPR", path, l.line)
+			}
+			cl := &Clause{Kind: "gupdate", Label: strings.TrimSpace(r[:eqi]), Text: strings.TrimSpace(r[eqi+3:]), File: path, Line: l.line, Owner: cur, Cond: cond}
+			cl.Target = &Clause{Kind: "gtarget", Text: cl.Label, File: path, Line: l.line, Owner: cur}
+			if kw == "ghost_entry" {
+				cur.GEntry = append(cur.GEntry, cl)
+			} else {
+				cur.GReturn = append(cur.GReturn, cl)
+			}
 		case "let":
 			c := mkClause("let")
 			eq := strings.Index(c.Text, "=")
@@ -731,6 +799,8 @@ func unchanged(l ...interface{}) bool { return true }
 func call(f interface{}, args ...interface{}) interface{} { return nil }
 func callb(f interface{}, args ...interface{}) bool { return true }
 func visited(k interface{}) bool { return true }
+func freshid(i int) bool { return true }
+func maps[T any]() interface{} { return nil }
 func fields[T any]() interface{} { return nil }
 func pointee(x interface{}) interface{} { return nil }
 func itercount() int { return 0 }
@@ -799,7 +869,7 @@ func (pc *PkgContracts) emitClause(c *Contract, cl *Clause, extra []Binder) {
 	case "decreases":
 		cl.GoText = rewriteSpec(cl.Text)
 		pc.Synth += fmt.Sprintf("//line %s:%d\nfunc %s(%s) int { %sreturn %s }\n", cl.File, cl.Line, cl.FnName, blist, lets.String(), cl.GoText)
-	case "let":
+	case "let", "gupdate", "gtarget":
 		cl.GoText = rewriteSpec(cl.Text)
 		pc.Synth += fmt.Sprintf("//line %s:%d\nfunc %s(%s) interface{} { %sreturn %s }\n", cl.File, cl.Line, cl.FnName, blist, lets.String(), cl.GoText)
 	default:
@@ -838,6 +908,17 @@ func (pc *PkgContracts) generate() {
 		}
 		for _, cl := range c.Assigns {
 			pc.emitClause(c, cl, nil)
+		}
+		for _, cl := range c.GEntry {
+			pc.emitClause(c, cl, nil)
+			pc.emitClause(c, cl.Target, nil)
+		}
+		for _, cl := range c.GReturn {
+			pc.emitClause(c, cl, nil)
+			pc.emitClause(c, cl.Target, nil)
+			if cl.Cond != nil {
+				pc.emitClause(c, cl.Cond, nil)
+			}
 		}
 		var ns []int
 		for n := range c.Loops {
